@@ -1715,9 +1715,18 @@ func (h *fsmHandler) openconfirm(ctx context.Context) (bgp.FSMState, *fsmStateRe
 				if m.Header.Type == bgp.BGP_MSG_KEEPALIVE {
 					return bgp.BGP_FSM_ESTABLISHED, newfsmStateReason(fsmOpenMsgNegotiated, nil, nil)
 				}
-				// send notification ?
-				fsm.conn.Close()
-				return bgp.BGP_FSM_IDLE, newfsmStateReason(fsmInvalidMsg, nil, nil)
+				if m.Header.Type == bgp.BGP_MSG_NOTIFICATION {
+					// RFC 4271 8.2.2: a NOTIFICATION is never answered;
+					// just drop the connection.
+					fsm.conn.Close()
+					return bgp.BGP_FSM_IDLE, newfsmStateReason(fsmInvalidMsg, nil, nil)
+				}
+				// RFC 4271 8.2.2, RFC 6608: any other message is unexpected
+				// in OpenConfirm state. The data field carries the type of
+				// the unexpected message.
+				n := bgp.NewBGPNotificationMessage(bgp.BGP_ERROR_FSM_ERROR, bgp.BGP_ERROR_SUB_RECEIVE_UNEXPECTED_MESSAGE_IN_OPENCONFIRM_STATE, []byte{m.Header.Type})
+				_ = fsm.sendNotification(fsm.conn, n)
+				return bgp.BGP_FSM_IDLE, newfsmStateReason(fsmInvalidMsg, n, nil)
 			case *bgp.MessageError:
 				n := bgp.NewBGPNotificationMessage(m.TypeCode, m.SubTypeCode, m.Data)
 				_ = fsm.sendNotification(fsm.conn, n)
